@@ -45,6 +45,16 @@ type concCase struct {
 	Procs    int     `json:"procs"`
 	JitterUs int     `json:"jitter_us"`
 	Seed     int64   `json:"seed"`
+	Actual   bool    `json:"actual"` // context.WithActualResponse(true): the simulator answers like the service would
+}
+
+// concActual is what a client sees in actual-response mode
+type concActual struct {
+	Status int    `json:"status"`
+	Body   string `json:"body"`
+	Path   string `json:"origin_path"` // X-Origin-Path header set by the origin
+	XCache string `json:"xcache"`
+	Err    string `json:"err,omitempty"`
 }
 
 const concBase = 1_000_000_000 // now.sec of acquisition number k is concBase + k
@@ -65,7 +75,12 @@ func init() {
 			ctx.FixedTime = &t
 		}
 		originReset()
-		ip := smNew(c.VCL, order)
+		opts := []icontext.Option{order}
+		if c.Actual {
+			opts = append(opts, icontext.WithActualResponse(true))
+		}
+		ip := smNew(c.VCL, opts...)
+		actual := make([]concActual, len(c.Reqs))
 		srv := httptest.NewServer(ip)
 		defer srv.Close()
 		rng := rand.New(rand.NewSource(c.Seed))
@@ -98,10 +113,16 @@ func init() {
 				resp, err := http.DefaultTransport.RoundTrip(req)
 				if err != nil {
 					res[i].Panic = "transport: " + err.Error()
+					actual[i].Err = err.Error()
 					return
 				}
 				body, _ := io.ReadAll(resp.Body)
 				resp.Body.Close()
+				if c.Actual {
+					actual[i] = concActual{Status: resp.StatusCode, Body: string(body),
+						Path: resp.Header.Get("X-Origin-Path"), XCache: resp.Header.Get("X-Cache")}
+					return
+				}
 				res[i] = smProject(resp.StatusCode, body)
 				for _, m := range res[i].Logs {
 					if strings.HasPrefix(m, "seq:") {
@@ -118,10 +139,57 @@ func init() {
 			smFinal
 			Seq    []int          `json:"seq"`
 			Origin map[string]int `json:"origin_by_url"`
+			Actual []concActual   `json:"actual,omitempty"`
 		}{Seq: seq, Origin: originCounts()}
+		if c.Actual {
+			out.Actual = actual
+		}
 		out.Res = res
 		smSnapshot(ip, &out.smFinal)
 		b, _ := json.Marshal(out)
+		return string(b)
+	})
+
+	// conc2 {"vcl":…, "reqs":[…]}: TWO interpreters in one process, each behind its own listener, the requests
+	// alternate between them and are sent at the same time. Nothing but package-level state is shared.
+	register("conc2", func(args string) string {
+		var c concCase
+		if err := json.Unmarshal([]byte(args), &c); err != nil {
+			return "badreq " + err.Error()
+		}
+		if c.Procs > 0 {
+			defer runtime.GOMAXPROCS(runtime.GOMAXPROCS(c.Procs))
+		}
+		srvs := []*httptest.Server{httptest.NewServer(smNew(c.VCL)), httptest.NewServer(smNew(c.VCL))}
+		defer srvs[0].Close()
+		defer srvs[1].Close()
+		res := make([]smRes, len(c.Reqs))
+		var wg sync.WaitGroup
+		start := make(chan struct{})
+		for i := range c.Reqs {
+			wg.Add(1)
+			go func(i int) {
+				defer wg.Done()
+				<-start
+				req, err := http.NewRequest(http.MethodGet, srvs[i%2].URL+c.Reqs[i].URL, nil)
+				if err != nil {
+					res[i].Panic = err.Error()
+					return
+				}
+				req.Host = "localhost"
+				resp, err := http.DefaultTransport.RoundTrip(req)
+				if err != nil {
+					res[i].Panic = "transport: " + err.Error()
+					return
+				}
+				body, _ := io.ReadAll(resp.Body)
+				resp.Body.Close()
+				res[i] = smProject(resp.StatusCode, body)
+			}(i)
+		}
+		close(start)
+		wg.Wait()
+		b, _ := json.Marshal(map[string]any{"res": res})
 		return string(b)
 	})
 
